@@ -960,3 +960,13 @@ func verifReencodeDataValue(b []byte, want byte) {
 		verifAssert("C03:datavalue-server-picoseconds", w.ServerPicoseconds == v.ServerPicoseconds)
 	}
 }
+
+// The reflection-driven slice decoder, as far as it is within reach: the element count handed to
+// reflect.MakeSlice is at most the number of bytes left in the message (and not negative), for every
+// input. The rest of the function (reflect.Value operations, the recursive decode of the elements) is
+// outside the verified subset and not claimed.
+//@ func decodeSlice
+//@   props C02
+//@   only alloc makelen
+//@   maxalloc [C02:alloc] len(b)
+//@   assigns *
